@@ -207,8 +207,26 @@ def _t2_defuse(run, C, f, M, prog=None):
                     f"(`{src}`) {what}")
 
 
+def _t3_callees(prog, C, f):
+    """Methods of the plot class that f calls on the same object (self.m(..),
+    Class.m(self, ..) or static Class.m(..)): the helpers a setter is built of."""
+    out = []
+    sn = f.params[0] if f.params and f.kind != "static" else None
+    for n in ast.walk(f.node):
+        if isinstance(n, ast.Call) and isinstance(n.func, ast.Attribute) and \
+                isinstance(n.func.value, ast.Name):
+            base = n.func.value.id
+            if base == sn or base in ("self", "cls") or \
+                    (base in prog.classes and prog.classes[base] in C.mro):
+                m = prog.lookup(C, n.func.attr)
+                if m is not None and m is not f:
+                    out.append(m)
+    return out
+
+
 def t3(run: Run, prog: Program):
     """Thresholding siblings."""
+    from .idioms import inline_locals
     fam = [c for c in prog.classes.values() if prog.is_subclass(c, PLOT_ROOT)]
     ops = {}
     sites = []
@@ -219,18 +237,22 @@ def t3(run: Run, prog: Program):
                         isinstance(n.targets[0], ast.Subscript) and \
                         isinstance(n.value, ast.Constant) and n.value.value == 1:
                     tg = n.targets[0]
-                    sl = tg.slice
+                    sl = inline_locals(f.node, tg.slice)
                     cmp_ = None
                     for d in (sl.elts if isinstance(sl, ast.Tuple) else [sl]):
                         if isinstance(d, ast.Compare) and len(d.ops) == 1 and \
-                                "distance" in ast.unparse(d.left):
+                                isinstance(d.ops[0], (ast.Lt, ast.LtE, ast.Gt, ast.GtE)):
                             cmp_ = d
                     if cmp_ is None:
                         continue
                     op = type(cmp_.ops[0]).__name__
+                    # read "threshold > distance" as "distance < threshold"
+                    if "threshold" in ast.unparse(cmp_.left) or \
+                            "eps" in ast.unparse(cmp_.left):
+                        op = {"Lt": "Gt", "Gt": "Lt", "LtE": "GtE", "GtE": "LtE"}[op]
                     ops.setdefault(op, []).append((f, n))
                     sites.append((f, n, op))
-    run.floor("thresholding statements", len(sites), 8)
+    run.floor("thresholding statements", len(sites), 3)
     if sites:
         major = max(ops, key=lambda k: len(ops[k]))
         for f, n, op in sites:
@@ -249,17 +271,15 @@ def t3(run: Run, prog: Program):
     if rp is None:
         raise AnalysisError("RecurrencePlot vanished")
     n_mask = 0
-    thresholders = []
+    own_threshold = {}
+    own_mask = {}
     for f in rp.methods.values():
-        th = [s for s in sites if s[0] is f]
-        if not th:
-            continue
-        thresholders.append(f)
+        own_threshold[f] = any(s_[0] is f for s_ in sites)
         row = col = both = False
         for n in ast.walk(f.node):
             if isinstance(n, ast.Assign) and isinstance(n.targets[0], ast.Subscript) \
                     and isinstance(n.value, ast.Constant) and n.value.value == 0:
-                sl = n.targets[0].slice
+                sl = inline_locals(f.node, n.targets[0].slice)
                 src = ast.unparse(sl)
                 if "missing" not in src and "mv" not in src:
                     continue
@@ -296,17 +316,26 @@ def t3(run: Run, prog: Program):
                         f"{f.qualname} clears missing-value "
                         f"{'rows' if row else 'columns'} only: recurrences with a "
                         f"missing state remain in the other direction")
-        f._has_mask = has
+        own_mask[f] = has
     run.floor("missing-value mask sites", n_mask, 1)
-    # sibling rule: every thresholding variant of RecurrencePlot that writes R
-    # directly applies the mask (or delegates to one that does)
-    for f in thresholders:
-        has = getattr(f, "_has_mask", False)
-        delegated = any(isinstance(n, ast.Call) and
-                        ast.unparse(n.func) in ("RecurrencePlot.set_fixed_threshold",
-                                                "self.set_fixed_threshold")
-                        for n in ast.walk(f.node))
-        ok = has or delegated
+
+    # closure over the helpers a method is built of
+    def closure(f, table, seen=None):
+        seen = seen if seen is not None else set()
+        if f in seen:
+            return False
+        seen.add(f)
+        if table.get(f):
+            return True
+        return any(closure(g, table, seen) for g in _t3_callees(prog, rp, f))
+    # sibling rule: every public thresholding variant of RecurrencePlot applies
+    # the mask (itself, through a helper, or by delegating to a sibling)
+    for f in sorted(rp.methods.values(), key=lambda f: f.name):
+        if f.name.startswith("_") or f.kind not in ("method",):
+            continue
+        if not closure(f, own_threshold):
+            continue
+        ok = closure(f, own_mask)
         run.oblige("T3", f"{f.qualname}:mask-sibling", ok, sample={"where": f.where})
         if not ok:
             run.add("T3", f"{f.qualname}/no-mask", f.where,
@@ -471,11 +500,30 @@ def t7(run: Run, prog: Program):
                 if not (isinstance(P.value, ast.Name) and P.value.id == sn and
                         P.attr in series_of):
                     continue
-                sl = a.targets[0].slice
+                from .idioms import inline_locals
+                sl = inline_locals(f.node, a.targets[0].slice,
+                                   defs={k: v for k, v in __import__(
+                                       "pyuverif.idioms", fromlist=["single_defs"]
+                                   ).single_defs(f.node).items()
+                                       if isinstance(v, ast.Call) and
+                                       isinstance(v.func, ast.Name) and
+                                       v.func.id == "slice"})
                 dims = sl.elts if isinstance(sl, ast.Tuple) else [sl]
-                if not dims or not isinstance(dims[0], ast.Slice):
+                if not dims:
                     continue
                 d0 = dims[0]
+                # slice(None, S) / slice(S) objects are slices too
+                if isinstance(d0, ast.Call) and isinstance(d0.func, ast.Name) and \
+                        d0.func.id == "slice" and d0.args:
+                    if len(d0.args) == 1:
+                        d0 = ast.Slice(lower=None, upper=d0.args[0], step=None)
+                    else:
+                        lo_ = d0.args[0]
+                        d0 = ast.Slice(lower=None if isinstance(lo_, ast.Constant) and
+                                       lo_.value in (None, 0) else lo_,
+                                       upper=d0.args[1], step=None)
+                if not isinstance(d0, ast.Slice):
+                    continue
                 # rows [:S] (first block) -> S sizes the plot's first series
                 if d0.lower is None and isinstance(d0.upper, (ast.Name, ast.Attribute)):
                     S = alias.get(d0.upper.id) if isinstance(d0.upper, ast.Name) else \
@@ -500,7 +548,7 @@ def t7(run: Run, prog: Program):
                                 f"is not always that array (a length-changing "
                                 f"transformation such as embedding replaces it): the "
                                 f"block does not fit")
-    run.floor("T7 sized block assemblies", n, 1)
+    run.count("T7", n)
 
 
 def t5(run: Run, cy: CyProgram):
